@@ -201,8 +201,16 @@ def tr1(ctx, R):
                            ("call", "tuple", (("call", "range", (OFF, ("binop", "+", (SIZE, OFF))), ()),), ()),
                            ("call", "list", (("call", "range", (OFF, ("binop", "+", (OFF, SIZE))), ()),), ()),
                            ("call", "range", (OFF, ("binop", "+", (OFF, SIZE))), ()))
-        R.check(ok_cols, "%s::byte_columns" % f.qual, f.where(c), "columns byte_offset .. byte_offset + size - 1 of the scaler that is post-processed",
-                "byte columns are `%s`" % show(alpha(cols))[:160])
+        if not ok_cols and cols[0] == "method" and not cols[3]:
+            # the columns come from a method of the scaler (scaler.byte_columns()): every definition of that name in the module must
+            # be the range byte_offset .. byte_offset + size of its own object
+            defs = [m_ for m_ in prog.functions.values() if m_.module.name == "daqmx" and m_.cls is not None and m_.name == cols[1]]
+            texts = {unparse(r_.value) for m_ in defs for r_ in walk_body(m_.node) if isinstance(r_, ast.Return) and r_.value is not None}
+            R.unrecognised("%s::byte_columns" % f.qual, f.where(c), "byte columns are computed by `%s()` of the scaler (%d definition(s): %s): not compared with "
+                           "byte_offset .. byte_offset + size" % (cols[1], len(defs), sorted(texts)[:2]))
+        else:
+            R.check(ok_cols, "%s::byte_columns" % f.qual, f.where(c), "columns byte_offset .. byte_offset + size - 1 of the scaler that is post-processed",
+                    "byte columns are `%s`" % show(alpha(cols))[:160])
         buf = m["buf"]
         from_reader = buf[0] == "call" and buf[1] == keep[0]
         if buf[0] == "param":
@@ -247,7 +255,7 @@ def tr1(ctx, R):
                         "was not recognised")
             continue
         if not eqs:
-            if any(isinstance(x, ast.Attribute) and x.attr == "raw_buffer_index" for x in ast.walk(main.node)):
+            if any(isinstance(x, ast.Attribute) and x.attr == "raw_buffer_index" for g_ in region(ctx, main, depth=2) for x in ast.walk(g_.node)):
                 # the buffer index is used, but not in an equality test that guards the decoding (e.g. scalers grouped by it beforehand)
                 R.unrecognised(key, main.where(c), "raw_buffer_index is used in %s, but not in a test that guards the decoding: how scalers are matched to "
                                "their buffer was not recognised" % main.qual)
@@ -306,6 +314,21 @@ def dl1(ctx, R):
     pp = method_of(prog, dl, "postprocess_data")
     if bo is None or pp is None:
         raise AnchorMissing("daqmx.DigitalLineScaler: byte_offset / postprocess_data")
+    # the extracted line keeps the scaler's declared type: channel.dtype and scaler_data_types declare the port's integer type, and
+    # chunk streams hand the values out as they are
+    for k_ in (dl, fc):
+        m_ = method_of(prog, k_, "postprocess_data")
+        if m_ is None:
+            continue
+        casts = [c_ for c_ in walk_body(m_.node) if isinstance(c_, ast.Call) and (
+            (isinstance(c_.func, ast.Attribute) and c_.func.attr == "astype" and c_.args and not (isinstance(c_.args[0], ast.Attribute) and c_.args[0].attr == "dtype")) or
+            (call_name(c_) or "") in ("np.uint8", "np.int8", "np.bool_", "np.uint16", "np.int16", "np.uint32", "np.int32", "np.uint64", "np.int64", "np.float64", "np.float32", "bool"))]
+        key_ = "%s::keeps the scaler type" % m_.qual
+        if casts:
+            R.violation(key_, m_.where(casts[0]), "`%s` converts the scaler's values to a fixed type: the declared type of the channel (the scaler's data type) "
+                        "is no longer the type of what chunk streams return" % unparse(casts[0])[:60])
+        else:
+            R.ok(key_, m_.where(), "no conversion to a fixed type")
     v = Sym(prog, bo, dl).function_value()
     R.check(v == ("binop", "//", (OFF, ("const", 8))), "daqmx.DigitalLineScaler.byte_offset", bo.where(), "raw_bit_offset // 8",
             "byte offset is `%s`" % show(alpha(v))[:100])
